@@ -767,12 +767,28 @@ impl KotoIterator for Skip {
 
     fn next_back(&mut self) -> Option<Output> {
         // Ensure the forward output has been skipped before yielding output from the back
-        if self.remaining > 0 {
-            self.iter.nth(self.remaining - 1);
-            self.remaining = 0;
+        if let Some(error) = self.skip_remaining() {
+            return Some(error);
         }
 
         self.iter.next_back()
+    }
+}
+
+impl Skip {
+    // Skips over the remaining values that should be skipped
+    //
+    // If an error is encountered while skipping then it gets returned so that it can be passed
+    // along rather than being discarded along with the skipped values.
+    fn skip_remaining(&mut self) -> Option<Output> {
+        for _ in 0..take(&mut self.remaining) {
+            match self.iter.next() {
+                Some(error @ Output::Error(_)) => return Some(error),
+                Some(_) => {}
+                None => break,
+            }
+        }
+        None
     }
 }
 
@@ -780,11 +796,11 @@ impl Iterator for Skip {
     type Item = Output;
 
     fn next(&mut self) -> Option<Self::Item> {
-        if self.remaining > 0 {
-            self.iter.nth(take(&mut self.remaining))
-        } else {
-            self.iter.next()
+        if let Some(error) = self.skip_remaining() {
+            return Some(error);
         }
+
+        self.iter.next()
     }
 
     fn size_hint(&self) -> (usize, Option<usize>) {
@@ -838,8 +854,16 @@ impl Iterator for Step {
 
     fn next(&mut self) -> Option<Self::Item> {
         let result = self.iter.next();
+        if matches!(result, None | Some(Output::Error(_))) {
+            // There's nothing to step over once the input has ended or failed
+            return result;
+        }
         for _ in 0..self.step - 1 {
-            self.iter.next();
+            // Errors from the values that are stepped over are passed along
+            // rather than being discarded.
+            if let Some(error @ Output::Error(_)) = self.iter.next() {
+                return Some(error);
+            }
         }
         result
     }
